@@ -3,8 +3,10 @@
 from __future__ import annotations
 
 import random
+from collections import Counter
 
-from .. import engine, gen
+from .. import engine, gen, spec
+from ..engine import Violation
 from ..runner import Outcome
 from . import common
 
@@ -12,13 +14,19 @@ ID = "C04"
 ENGINE = "single-node-history"
 LEVEL = "exploration"
 DESIGN_REF = "DESIGN.md section 4 (C04), 3.3"
-TECHNIQUE = "deterministic simulation: adversarial gradient-presence histories (fault = absent gradient) against the real optimizer; bitwise frozen-state monitor + per-block refinement pinned to each block's own pre-state"
+TECHNIQUE = (
+    "deterministic simulation: adversarial gradient-presence histories (fault = absent gradient) against the real optimizer; "
+    "bitwise frozen-state monitor + per-block refinement pinned to each block's own pre-state; a share of the histories runs on "
+    "every rank of a simulated multi-rank world (DDP / FSDP / HSDP / fully_shard / hybrid shard) under the seeded scheduler"
+)
 LEVEL_TEXT = (
     "Seeded search over presence histories built adversarially (flip every step, all-absent steps, never-present "
     "parameters, one parameter toggling per step, whole groups absent) over parameter sets with equal-shaped and multi-block "
     "parameters. Absent parameters are compared bit-for-bit (value and every state tensor) around every step; group "
     "counters must advance iff the group has a gradient; present blocks are refined against the reference model from "
-    "their own pre-state, so a misaligned selector shows as a mismatch even when shapes agree."
+    "their own pre-state, so a misaligned selector shows as a mismatch even when shapes agree. World mode: the same bitwise "
+    "monitor (local parameter shard, every local state tensor, group counters) runs on every rank of DDP / FSDP / HSDP / "
+    "fully_shard / hybrid-shard worlds, where an absent parameter's value also passes through gather buffers."
 )
 LEVEL_NOTE = "Trusted: own state walker over optimizer.state (not the repository's flatten/state_dict); reference model as in C01."
 BUDGET = {"quick": 50.0, "thorough": 600.0}
@@ -31,7 +39,10 @@ ASSUMPTIONS = [
     "param.grad itself is not optimizer state (coupled decay edits gradients in place); fresh gradient tensors are assigned every step",
     "the group's step counter lives under the group's first parameter and legitimately advances while that parameter is absent",
 ]
-COMPONENTS = common.COMPONENTS_SINGLE
+COMPONENTS = {
+    "real": common.COMPONENTS_SINGLE["real"] + ["world mode: DDP / FSDP / HSDP / FullyShard / HybridShard distributors, DTensor state, torch.distributed front-end"],
+    "stub": common.COMPONENTS_SINGLE["stub"] + ["world mode: c10d backend and rank scheduling (simulated world)"],
+}
 REQUIRED_PROBES = {
     "quick": ["absent_param_checked", "absent_param_in_active_group", "presence_changed", "all_absent_group_step", "block_steps_checked"],
     "thorough": [
@@ -44,11 +55,52 @@ REQUIRED_PROBES = {
         "equal_shaped_params_run",
         "multi_group_run",
         "never_present_param_run",
+        "world_run",
+        "world_absent_param_checked",
+        "world_communicate_params",
     ],
 }
 
 
+def generate_world(rng: random.Random, tier: str) -> dict:
+    """A C06 / C07 / C08 world with a history that never starves a block owner (finding F3 is theirs), early absences
+    (a parameter that has not had a gradient yet) and whole groups absent."""
+    from . import c06, c07, c08
+
+    which = rng.choice(["ddp", "ddp", "flat", "dtensor"])
+    if which == "ddp":
+        from .. import worldrun
+
+        t = c06.generate(rng, "quick")
+        gsize = t["world"]["size"] if t["world"]["num_trainers_per_group"] == -1 else t["world"]["num_trainers_per_group"]
+        itemsize = worldrun.COMM[t["world"]["comm_dtype"]].itemsize
+        t["events"] = c06.gen_world_history(rng, t, gsize, itemsize, len(t["events"]), starve=False)
+        if rng.random() < 0.5:
+            # a parameter whose first gradient arrives late (its value has never passed through the optimizer before the
+            # steps in which it must stay untouched), kept non-starving under the predicted ownership
+            owners = c06.predicted_param_owners(t, gsize, itemsize)
+            pi = rng.randrange(len(t["params"]))
+            k = rng.choice([1, 2, 3])
+            for ev in [e for e in t["events"] if e["op"] == "step"][:k]:
+                mask = [g is not None for g in ev["g"]]
+                mask[pi] = False
+                mask = c06.repair_mask(rng, t, owners, gsize, mask)
+                for i, on in enumerate(mask):
+                    if not on:
+                        ev["g"][i] = None
+                    elif ev["g"][i] is None:
+                        ev["g"][i] = gen.gen_grad(rng)
+                        ev["g"][i][2] = 1.0
+    else:
+        t = (c07 if which == "flat" else c08).generate(rng, "quick", allow_starve=False)
+    t.pop("check_schedule_invariance", None)
+    t.update(property=ID, engine="world-absent")
+    return t
+
+
 def generate(rng: random.Random, tier: str) -> dict:
+    if rng.random() < 0.12:
+        return generate_world(rng, tier)
     kind = rng.choice(["shampoo", "shampoo", "soap"])
     config = gen.gen_config(rng, kind=kind)
     dtype = rng.choice(["float32", "float32", "float64", "float64", "bfloat16"])
@@ -73,8 +125,108 @@ def generate(rng: random.Random, tier: str) -> dict:
     return {"schema": 1, "property": ID, "engine": "single", "config": config, "groups": groups, "params": params, "world": None, "events": events, "style": style}
 
 
+def execute_world(trace: dict) -> Outcome:
+    """The bitwise absent-parameter monitor on every rank of a simulated world."""
+    from .. import shardworld, world, worldrun
+
+    w = trace["world"]
+    n = w["size"]
+    results: list[Violation | None] = [None] * n
+    rank_probes = [Counter() for _ in range(n)]
+    outs = [worldrun.RankOut() for _ in range(n)]
+    feats = {"world_kind": w["kind"], "world_size": n, "mesh": w.get("mesh"), "communicate_params": w["communicate_params"], "comm_dtype": w["comm_dtype"]}
+
+    def rank_main(rank: int, sim) -> None:
+        probes = rank_probes[rank]
+        prog = shardworld.PROGRAMS[w["kind"]](trace, rank, sim)
+        prog.setup()
+        if w["kind"] in ("ddp", "hsdp", "hybrid_shard"):
+            outs[rank].groups_info = shardworld.collect_group_info_generic(prog)
+        opt = prog.opt
+        ctx = sim.me()
+        sim.yield_()
+        for ei, ev in enumerate(trace["events"]):
+            if ev["op"] == "set_hparam":
+                opt.param_groups[ev["group"]][ev["key"]] = ev["value"]
+                continue
+            prog.set_grads(ev)
+            pre_p = prog.snapshot()
+            pre_s = {pi: spec.snapshot_state(opt, p) for pi, p in enumerate(prog.params) if ev["g"][pi] is None and p in opt.state}
+            firsts = [g["params"][0] for g in trace["groups"]]
+            pre_t = [int(opt.state[prog.params[fi]]["step"].item()) if prog.params[fi] in opt.state else None for fi in firsts]
+            opt.step()  # (an exception ends the rank: classified below)
+            post_p = prog.snapshot()
+            for pi, g in enumerate(ev["g"]):
+                if g is not None:
+                    continue
+                probes["world_absent_param_checked"] += 1
+                if not spec.bit_equal(pre_p[pi], post_p[pi]):
+                    results[rank] = Violation(ID, "absent_param_value_changed", ei, {**feats, "rank": rank, "param": pi, "never_had_gradient": all(e["op"] != "step" or e["g"][pi] is None for e in trace["events"][:ei])})
+                    return
+                if pi in pre_s:
+                    post_s = spec.snapshot_state(opt, prog.params[pi])
+                    for path, t0 in pre_s[pi].items():
+                        if path == ("step",):
+                            continue  # the group's counter lives under the group's first parameter
+                        if path not in post_s or not spec.bit_equal(t0, post_s[path]):
+                            results[rank] = Violation(ID, "absent_param_state_changed:" + "/".join(str(x) for x in path if not str(x).startswith("block_")), ei, {**feats, "rank": rank, "param": pi, "path": [str(x) for x in path]})
+                            return
+            for gi, g in enumerate(trace["groups"]):
+                if pre_t[gi] is None:
+                    continue
+                now = int(opt.state[prog.params[firsts[gi]]]["step"].item())
+                if all(ev["g"][pi] is None for pi in g["params"]):
+                    probes["world_all_absent_group_step"] += 1
+                    if now != pre_t[gi]:
+                        results[rank] = Violation(ID, "step_counter_advanced_without_gradient", ei, {**feats, "rank": rank, "group": gi})
+                        return
+            ctx.progress = ei + 1
+            sim.record("event_done", ei)
+            sim.yield_()
+
+    world.install()
+    sim = world.Sim(n, trace["schedule_seed"], trace.get("schedule"), w.get("stickiness", 0.0), w.get("weights"))
+    sim.run(rank_main)
+    probes: Counter = Counter()
+    for rp in rank_probes:
+        probes.update(rp)
+    probes["world_run"] += 1
+    probes[f"world_{w['kind']}"] += 1
+    if w["communicate_params"]:
+        probes["world_communicate_params"] += 1
+    v = next((r for r in results if r is not None), None)
+    starving = [ei for ei, ev in enumerate(trace["events"]) if ev["op"] == "step" and worldrun.starved_ranks(trace, outs, ev)]
+    if starving:
+        # a block owner without any gradient under the assignment actually made: finding F3 (C06-C08), no verdict here
+        probes["history_starves_under_actual_assignment"] += 1
+        v = None
+    elif v is None and sim.outcome == "rank_failed":
+        from .c06 import natural_world_failure
+
+        r = next(r for r in sim.ranks if r.exc is not None)
+        msg = str(r.exc)
+        if isinstance(r.exc, ValueError) and ("factor matrix" in msg or "exceeded the allowed tolerance" in msg or "eigenvectors" in msg):
+            probes["ended_by_natural_solver_failure"] += 1  # a diverged / ill-conditioned trajectory, as in the single engine
+        else:
+            v = Violation(ID, "unexpected_exception", r.progress, {**feats, "rank": r.idx, "exc_type": type(r.exc).__name__, "exc": str(r.exc)[:300], "tb": r.exc_tb[-600:]})
+    elif v is None and sim.outcome != "ok":
+        probes["world_liveness_not_judged_here"] += 1  # deadlock / collective mismatch are C06-C08's clauses
+    return Outcome(
+        violation=v,
+        probes=probes,
+        nontrivial=probes.get("world_absent_param_checked", 0) > 0,
+        abstract=[(tuple(sorted((k, str(x)) for k, x in feats.items())), "world")],
+        steps=sum(1 for e in trace["events"] if e["op"] == "step") * n,
+        sched_events=len(sim.choices),
+        interleaving=spec.digest(sim.choices),
+        faults={"absent_grad": probes.get("world_absent_param_checked", 0), "all_absent_step": probes.get("world_all_absent_group_step", 0)},
+    )
+
+
 def execute(trace: dict) -> Outcome:
     common.quiet_logs()
+    if trace.get("engine") == "world-absent":
+        return execute_world(trace)
     oracles = [engine.FrozenMonitor(), engine.RefOracle(check_roots=False)]
     run = engine.SingleRun(trace, oracles, ID)
     v = run.run()
@@ -93,4 +245,9 @@ def execute(trace: dict) -> Outcome:
     )
 
 
-from .c01 import sample_view  # noqa: E402,F401
+def sample_view(trace: dict) -> dict:
+    if trace.get("engine") == "world-absent":
+        from .c06 import sample_view as sv
+    else:
+        from .c01 import sample_view as sv
+    return sv(trace)
